@@ -563,6 +563,9 @@ mod e2e {
                 }
                 ["advance", ms] => {
                     st.bump("e_advance");
+                    if ms.parse::<u64>().unwrap_or(0) >= 5000 {
+                        st.bump("e_advance_past_ping_period");
+                    }
                     tokio::time::advance(std::time::Duration::from_millis(ms.parse().unwrap())).await;
                     for _ in 0..4 {
                         tokio::task::yield_now().await;
@@ -1005,6 +1008,13 @@ mod e2e {
                 clock += ms;
                 ops.push(format!("advance {ms}"));
             }
+            // a quiet period longer than the ping period: both nodes ping, both answer with a pong,
+            // nothing else may change
+            if !cut && rng.chance(1, 12) {
+                ops.push("settle".into());
+                ops.push("advance 6000".into());
+                ops.push("settle".into());
+            }
             // sometimes a lifecycle event races with the traffic, sometimes it comes at rest
             if rng.chance(1, 2) {
                 ops.push("settle".into());
@@ -1038,9 +1048,14 @@ mod e2e {
                     let d = *rng.pick(&dirs);
                     ops.push(format!("fault {d} {kind}"));
                     if kind != "read" {
-                        ops.push("spawn".into());
-                        live.push(all);
-                        all += 1;
+                        if rng.chance(1, 2) {
+                            ops.push("spawn".into());
+                            live.push(all);
+                            all += 1;
+                        } else {
+                            // nobody sends anything: the ping loop (period 1-5 s) is what meets the fault
+                            ops.push("advance 6000".into());
+                        }
                     }
                     ops.push("settle".into());
                     ops.push(format!("faultseen {d}"));
